@@ -40,6 +40,26 @@ pub fn close_window() {
     WINDOW_OPEN.store(false, Ordering::SeqCst);
 }
 
+/// Wall-clock budget of one check part: every (driver, bound) exploration gets an equal share of what
+/// is left, so that a thorough tier ends within its budget whatever the size of the individual
+/// trees; a share that runs out is reported as a cap hit for that driver (never as a verdict).
+pub struct Budget {
+    deadline: Instant,
+    per_item_max: u64,
+}
+
+impl Budget {
+    pub fn new(total_s: u64, per_item_max: u64) -> Self {
+        let total = std::env::var("VERIF_BUDGET_S").ok().and_then(|s| s.parse().ok()).unwrap_or(total_s);
+        Self { deadline: Instant::now() + Duration::from_secs(total), per_item_max }
+    }
+    /// seconds granted to the next exploration when `remaining` explorations (including it) are left
+    pub fn share(&self, remaining: usize) -> u64 {
+        let left = self.deadline.saturating_duration_since(Instant::now()).as_secs();
+        (left / remaining.max(1) as u64).clamp(5, self.per_item_max)
+    }
+}
+
 #[derive(Clone, Debug)]
 struct Level {
     chosen: u32,
